@@ -85,7 +85,9 @@ pub fn render_obo(rng: &mut Rng, f: &Facts, flags: &Flags, case: &mut Case, oo: 
         let mut parents: Vec<u32> = f.edges.iter().filter(|e| e.1 == *id).map(|e| e.0).collect();
         rng.shuffle(&mut parents);
         for p in parents {
-            l.push(format!("is_a: {} ! {}", hp(p), term_name(f, p)));
+            // (one link in twelve names its parent without zero padding)
+            let pid = if rng.chance(1, 12) { format!("HP:{p}") } else { hp(p) };
+            l.push(format!("is_a: {} ! {}", pid, term_name(f, p)));
         }
         if rng.chance(1, 10) {
             // an `is_a` row WITHOUT the ` ! name` comment is no link (the value is cut at its first
